@@ -164,6 +164,7 @@ func genC16(r *rng.R, tier string, steer bool, idx int) *trace.Trace {
 	groups = append(groups, "/")
 	resizable := map[string][]uint64{}
 	var resizableList []string
+	var vlens []string
 	nameN := 0
 	join := func(g, nm string) string {
 		if g == "/" {
@@ -184,7 +185,7 @@ func genC16(r *rng.R, tier string, steer bool, idx int) *trace.Trace {
 			bad := rng.Pick(r, []string{"name-empty", "name-noslash", "dims-empty", "dims-zero", "chunk-rank", "chunk-zero", "chunk-too-big",
 				"maxdims-small", "maxdims-rank", "maxdims-nochunk", "dtype-bogus", "string-nosize", "array-nodims", "enum-mismatch", "opaque-notag",
 				"data-len", "data-type", "dup", "missing-parent", "attr-kind", "attr-huge", "resize-beyond", "resize-rank", "resize-fixed",
-				"delete-absent", "link-missing-target", "group-noslash", "softlink-empty", "extlink-nofile", "longname", "attr-grow", "attr-grow"})
+				"delete-absent", "link-missing-target", "group-noslash", "softlink-empty", "extlink-nofile", "longname", "attr-grow", "attr-grow", "resize-beyond-nd", "resize-beyond-nd", "resize-zero", "vlen-data-len"})
 			op := trace.Op{Op: "create_dataset", Path: path, DType: "Int32", Dims: []uint64{4}, Bad: bad}
 			switch bad {
 			case "name-empty":
@@ -271,6 +272,33 @@ func genC16(r *rng.R, tier string, steer bool, idx int) *trace.Trace {
 				if bad == "resize-rank" {
 					op.Dims = []uint64{2, 2, 2}
 				}
+			case "resize-beyond-nd", "resize-zero":
+				// a request of the dataset's own rank in which one (for -nd: not the
+				// first, where possible) dimension exceeds the declared maximum / is zero
+				// while the other dimensions change too
+				if len(resizableList) == 0 {
+					continue
+				}
+				p := rng.Pick(r, resizableList)
+				md := resizable[p]
+				nd := make([]uint64, len(md))
+				for k := range nd {
+					nd[k] = uint64(r.Range(1, int(md[k])))
+				}
+				k := len(nd) - 1 - r.Intn(max(1, len(nd)-1))
+				if bad == "resize-zero" {
+					nd[k] = 0
+				} else {
+					nd[k] = md[k] + uint64(r.Range(1, 4))
+				}
+				op = trace.Op{Op: "resize", Path: p, Dims: nd, Bad: bad}
+			case "vlen-data-len":
+				if len(vlens) == 0 {
+					continue
+				}
+				d := genVLenData(r, false)
+				d.WrongLen = rng.Pick(r, []int{-1, 1, 3})
+				op = trace.Op{Op: "write", Path: rng.Pick(r, vlens), Bad: bad, Data: d}
 			case "delete-absent":
 				if len(dsets) == 0 {
 					continue
@@ -292,6 +320,13 @@ func genC16(r *rng.R, tier string, steer bool, idx int) *trace.Trace {
 		}
 		switch r.Weighted([]int{30, 15, 25, 10, 8, 6, 3, 3}) {
 		case 0:
+			if r.Chance(0.1) {
+				c, w := genVLen(r, path, 6, r.Chance(0.3))
+				t.Ops = append(t.Ops, c, w)
+				vlens = append(vlens, path)
+				all = append(all, path)
+				continue
+			}
 			op := genDatasetOp(r, path, true, []string{"Int32", "Float64", "Uint8", "String", "Int64"})
 			if len(op.Chunk) > 0 && r.Chance(0.5) {
 				op.MaxDims = make([]uint64, len(op.Dims))
@@ -344,6 +379,9 @@ func genC16(r *rng.R, tier string, steer bool, idx int) *trace.Trace {
 					if len(dsets) > 0 {
 						c = trace.Op{Op: "write_attr", Path: rng.Pick(r, dsets), Name: "late", Value: genValue(r, "int32", false), Bad: "closed"}
 					}
+				}
+				if len(vlens) > 0 && r.Chance(0.3) {
+					c = trace.Op{Op: "write", Path: rng.Pick(r, vlens), Data: genVLenData(r, false), Bad: "closed"}
 				}
 				t.Ops = append(t.Ops, c)
 			}
